@@ -498,11 +498,14 @@ def compare_replay(model_evs, real_evs, fields, ignore_driver=False):
 
 
 # ---------------------------------------------------------------------------------------------------
+EVIDENCE_DIR = os.environ.get('VERIF_EVIDENCE_DIR') or os.path.join(VERIF, 'evidence')   # seeded-change runs redirect it
+
+
 def write_evidence(pid, tier, seed, level, coverage, wall, violations, assumptions):
-    os.makedirs(os.path.join(VERIF, 'evidence'), exist_ok=True)
+    os.makedirs(EVIDENCE_DIR, exist_ok=True)
     ev = {'property_id': pid, 'tier': tier, 'seed': seed, 'level': level, 'coverage': coverage, 'assumptions': assumptions,
           'wall_s': round(wall, 2), 'violations': violations}
-    p = os.path.join(VERIF, 'evidence', pid + '.json')
+    p = os.path.join(EVIDENCE_DIR, pid + '.json')
     tmp = p + '.tmp'
     with open(tmp, 'w') as f:
         json.dump(ev, f, indent=1)
